@@ -78,6 +78,8 @@ func runC06(p *chk.Prog, r *chk.Report) {
 	c02FamilyChanged(p, r)
 	c03Converge(p, r)
 	c02Annotation(p, r)
+	// the pools reach the allocator and the controller together (SETPOOLS-REPROCESS, shared with C07)
+	setPoolsRule(p, r)
 	c06ReloadOnly(p, r)
 	fetchCheckedRule(p, r)
 	c06Gate(p, r)
